@@ -300,7 +300,8 @@ DevNewline(t, W) == Len(t) >= 2 /\ t[Len(t)] = "\n" /\ ValidTag(Front(t), W)
 DevTag(t, W) ==
   IF DevNewline(t, W) THEN [name |-> "tag-trailing-newline:accepted", out |-> TagOk(t)]
   ELSE [name |-> NoDev, out |-> TagOk(t)]
-\* a start tag that contains ":" (a listed character) is registered but cannot be used
+\* a start tag that contains ":" (a listed character), or that is exactly "..." (three listed
+\* characters), is registered but cannot be used: the tag word is read as argument syntax
 DevE2E(f, R, u, W) ==
   LET exp == E2E(f, R, u, W) IN
   IF X("TemplateSyntaxError") \in exp THEN [name |-> NoDev, out |-> X("")]
@@ -308,6 +309,8 @@ DevE2E(f, R, u, W) ==
        THEN [name |-> "comp-quoted-name-contains-equals:tse", out |-> X("TemplateSyntaxError")]
   ELSE IF u.word \in LibTags(f, R) /\ \E i \in 1..Len(u.word) : u.word[i] = ":"
        THEN [name |-> "start-tag-contains-colon:tse", out |-> X("TemplateSyntaxError")]
+  ELSE IF u.word \in LibTags(f, R) /\ u.word = <<".", ".", ".">>
+       THEN [name |-> "start-tag-is-spread-token:tse", out |-> X("TemplateSyntaxError")]
   ELSE [name |-> NoDev, out |-> X("")]
 
 (* ------------------------------ documented examples -------------------- *)
